@@ -95,7 +95,8 @@ async fn mutual(mut sim: Sim, seed: u64, gated: bool) -> Result<Value, String> {
         let addr = sim.addr(b);
         let expect = sim.peer_id(b);
         if !gated && k == 1 {
-            let d = [0u64, 0, 1, 2, 3][sim.rng.gen_range(0..5)];
+            // (the second dial may also come seconds after the first connection is up)
+            let d = [0u64, 0, 1, 2, 3, 2_600, 7_000][sim.rng.gen_range(0..7)];
             sim.sleep_ms(d).await;
         }
         tasks.push(tokio::spawn(async move {
